@@ -3,7 +3,7 @@ import ast
 
 from ..core import AnalysisError
 from ..src import call_name, unparse
-from .c01 import dispatch_arms, sym_eval, Sym, ATH
+from .c01 import dispatch_arms, sym_eval, Sym, ATH, score_roles
 
 LEVEL = 'other'
 DUAL = {'floor': 'ceil', 'ceil': 'floor'}
@@ -32,13 +32,14 @@ def run(ctx, repo):
         raise AnalysisError('score()/performance(): dispatch chain not found')
     markname = score.args.args[2].arg
     target = perf.args.args[2].arg
+    SR, PR = score_roles(score), score_roles(perf)
     for kind in ('jumps', 'throws', 'time'):
         # rounding used by score
         env = {markname: Sym(1.0)}
         srnd = None
         for st in sarms[kind]:
             if isinstance(st, ast.Assign) and isinstance(st.targets[0], ast.Name):
-                v = sym_eval(st.value, env, markname, 'age_factor')
+                v = sym_eval(st.value, env, markname, SR['age'])
                 if v.scale is not None:
                     env[st.targets[0].id] = v
                     if v.rnd and srnd is None:
@@ -92,9 +93,9 @@ def run(ctx, repo):
             continue
         pw = pows[0]
         base_ok = isinstance(pw.left, ast.BinOp) and isinstance(pw.left.op, ast.Div) and ast.unparse(pw.left.left) == target \
-            and 'A' in ast.unparse(pw.left.right) and 'coeffs' in ast.unparse(pw.left.right)
+            and "'A'" in ast.unparse(pw.left.right) and PR['coeffs'] in ast.unparse(pw.left.right)
         exp_ok = isinstance(pw.right, ast.BinOp) and isinstance(pw.right.op, ast.Div) and isinstance(pw.right.left, ast.Constant) \
-            and float(pw.right.left.value) == 1.0 and 'X' in ast.unparse(pw.right.right)
+            and float(pw.right.left.value) == 1.0 and "'X'" in ast.unparse(pw.right.right)
         if base_ok and exp_ok:
             ctx.ok('R2', '%s arm: (target / A) ** (1.0 / X)' % kind)
         else:
@@ -103,10 +104,10 @@ def run(ctx, repo):
         comb = getattr(pw, '_parent', None)
         while comb is not None and not (isinstance(comb, ast.BinOp) and isinstance(comb.op, (ast.Add, ast.Sub))):
             comb = getattr(comb, '_parent', None)
-        if comb is None or 'Z' not in ast.unparse(comb):
+        if comb is None or "'Z'" not in ast.unparse(comb):
             ctx.finding('R2', key + 'Z offset', ATH, pw.lineno, 'the zero-point mark Z is not combined with the power in the %s arm' % kind)
         else:
-            z_left = 'Z' in ast.unparse(comb.left)
+            z_left = "'Z'" in ast.unparse(comb.left)
             if kind == 'time':
                 good = isinstance(comb.op, ast.Sub) and z_left
             else:
@@ -119,11 +120,11 @@ def run(ctx, repo):
                                 kind, unparse(comb), 'Z - t' if kind == 'time' else 'd - Z', 'Z - power' if kind == 'time' else 'power + Z'))
     # same coefficient object
     for fn in (score, perf):
-        subs = [n for n in ast.walk(fn) if isinstance(n, ast.Assign) and ast.unparse(n.value) == '_scoring_objects[key]']
+        subs = [n for n in ast.walk(fn) if isinstance(n, ast.Assign) and isinstance(n.value, ast.Subscript) and ast.unparse(n.value.value) == '_scoring_objects']
         if not subs:
             ctx.finding('R2', '%s::%s::reads _scoring_objects[key]' % (ATH, fn.name), ATH, fn.lineno,
                         '%s() no longer reads its coefficients from the shared table' % fn.name)
-    keyasg = [n for n in ast.walk(perf) if isinstance(n, ast.Assign) and ast.unparse(n.targets[0]) == 'key']
+    keyasg = [n for n in ast.walk(perf) if isinstance(n, ast.Assign) and ast.unparse(n.targets[0]) == PR['key']]
     if keyasg and ast.unparse(keyasg[0].value) == 'scoring_key(%s, %s)' % (perf.args.args[0].arg, perf.args.args[1].arg):
         ctx.ok('R2', 'performance() looks up scoring_key(gender, event_code)')
     else:
